@@ -11,9 +11,11 @@ import (
 	"encoding/hex"
 	"encoding/json"
 	"fmt"
+	"io"
 	"math"
 	"math/rand"
 	"os"
+	"time"
 
 	"gitlab.com/yawning/obfs4.git/common/csrand"
 	"gitlab.com/yawning/obfs4.git/common/drbg"
@@ -68,6 +70,8 @@ func main() {
 			runSeeds(&s)
 		case "drbg":
 			runDrbg(&s)
+		case "samplereset":
+			runSampleReset(&s)
 		case "range":
 			runRange(&s)
 		}
@@ -249,11 +253,22 @@ func runDrbg(s *scenario) {
 			ref := refobfs4.NewMaskGen(raw)
 			h := sha256.New()
 			refeq, int63ok, first := true, true, true
+			// a block handed out stays what it was (the caller owns it): retained blocks are compared again later, and
+			// every returned block is scribbled over after use - neither may influence the generator
+			retained := true
+			var keptSlice []byte
+			var keptCopy string
 			for i := 0; i < s.K; i++ {
 				b := g.NextBlock()
 				r := ref.NextBlock()
 				if string(b) != string(r[:]) {
 					refeq = false
+				}
+				if keptSlice != nil && string(keptSlice) != keptCopy {
+					retained = false
+				}
+				if i%7 == 0 {
+					keptSlice, keptCopy = b, string(b)
 				}
 				if i == 0 {
 					var out [8]byte
@@ -265,9 +280,14 @@ func runDrbg(s *scenario) {
 					int63ok = false
 				}
 				h.Write(b)
+				if i%7 != 0 {
+					for j := range b {
+						b[j] ^= 0xA5
+					}
+				}
 			}
 			w.Emit(vt.Ev{"event": "Drbg", "seed": sh, "n": s.K, "digest": hex.EncodeToString(h.Sum(nil))[:16], "refeq": refeq,
-				"first_is_siphash": first, "int63ok": int63ok})
+				"first_is_siphash": first, "int63ok": int63ok, "retained": retained})
 		}
 	}
 }
@@ -292,6 +312,76 @@ func (e *scriptedEntropy) Read(p []byte) (int, error) {
 		e.buf = e.buf[1:]
 	}
 	return len(p), nil
+}
+
+// hookEntropy runs a callback in the middle of an entropy request (ie in the middle of a Sample()).
+type hookEntropy struct {
+	inner io.Reader
+	hook  func()
+	calls int
+}
+
+func (e *hookEntropy) Read(p []byte) (int, error) {
+	e.calls++
+	if e.calls == 1 && e.hook != nil {
+		e.hook()
+	}
+	return e.inner.Read(p)
+}
+
+// runSampleReset: Sample() and Reset() of one distribution overlap, as they do on an obfs4 / ScrambleSuit client whose
+// reader goroutine processes the server's PRNG seed while its writer goroutine samples.  A Reset is started in the middle
+// of a Sample (inside its entropy request) and given time to get as far as it can before the Sample goes on.  Whatever
+// the implementation does about locking: Sample must not panic and must return a value of the old or of the new table.
+func runSampleReset(s *scenario) {
+	bad, panics, trials := 0, 0, 0
+	for i := 0; i+1 < len(s.Seeds); i += 2 {
+		ra, _ := hex.DecodeString(s.Seeds[i])
+		rb, _ := hex.DecodeString(s.Seeds[i+1])
+		sa, _ := drbg.SeedFromBytes(ra)
+		sb, _ := drbg.SeedFromBytes(rb)
+		for _, bounds := range s.Bounds {
+			for rep := 0; rep < s.K; rep++ {
+				d := probdist.New(sa, bounds[0], bounds[1], rep%2 == 1)
+				oldT, _, _, _ := d.VerifTable()
+				newT, _, _, _ := probdist.New(sb, bounds[0], bounds[1], rep%2 == 1).VerifTable()
+				in := map[int]bool{}
+				for _, v := range oldT { // (the accessor returns values already offset by the lower bound)
+					in[v] = true
+				}
+				for _, v := range newT {
+					in[v] = true
+				}
+				resetDone := make(chan struct{})
+				old := crand.Reader
+				crand.Reader = &hookEntropy{inner: old, hook: func() {
+					go func() { d.Reset(sb); close(resetDone) }()
+					select { // it either completes (an implementation that does not hold the lock here) or blocks on the lock
+					case <-resetDone:
+					case <-time.After(300 * time.Microsecond):
+					}
+				}}
+				v, pan := 0, false
+				func() {
+					defer func() {
+						if recover() != nil {
+							pan = true
+						}
+					}()
+					v = d.Sample()
+				}()
+				crand.Reader = old
+				<-resetDone
+				trials++
+				if pan {
+					panics++
+				} else if !in[v] {
+					bad++
+				}
+			}
+		}
+	}
+	w.Emit(vt.Ev{"event": "SampleReset", "trials": trials, "panics": panics, "outside": bad})
 }
 
 func boundaryWords() []uint64 {
